@@ -5,6 +5,8 @@
                                                     event-log digests must be identical
     ./check selftest sensitivity [IDs...]           each mutant of selftest/mutants.py applied to a scratch copy of
                                                     the repository; the quick tier of the named check must flag it
+    ./check selftest specificity [IDs...]           behaviour-preserving refactorings (selftest/refactorings/*.diff): the
+                                                    quick tier of the named check must stay silent on each
     ./check selftest digests <ID> <tier> <first> <n>   (internal) prints {run index: digest} as JSON
 """
 import concurrent.futures as cf
@@ -151,6 +153,45 @@ def sensitivity(ids, names=None):
     return 0 if not missed else 2
 
 
+def specificity(ids):
+    """Behaviour-preserving refactorings (selftest/refactorings/<ID>_<name>.diff, written by reviewers who tried to
+    provoke false alarms): the quick tier of the named check must stay silent on every one of them."""
+    d0 = os.path.join(core.VERIF, "selftest", "refactorings")
+    bad = 0
+    rows = []
+    for fn in sorted(os.listdir(d0)):
+        if not fn.endswith(".diff"):
+            continue
+        pid = fn.split("_")[0]
+        if ids and pid not in ids:
+            continue
+        d = tempfile.mkdtemp(prefix="gsim-ref-")
+        t0 = time.time()
+        try:
+            shutil.copytree(os.path.join(core.REPO, "graphtage"), os.path.join(d, "graphtage"))
+            p = subprocess.run(["patch", "-p1", "-s", "-i", os.path.join(d0, fn)], cwd=d, capture_output=True, text=True)
+            if p.returncode != 0:
+                core.out(f"[specificity] {fn}: does not apply to the current tree (skipped): {p.stdout[-200:]}")
+                rows.append({"refactoring": fn, "outcome": "does-not-apply"})
+                continue
+            env = dict(os.environ, GSIM_REPO=d, GSIM_NO_EVIDENCE="1", GSIM_NO_PROBE="1",
+                       GSIM_REPLAY_DIR=os.path.join(d, "replays"))
+            p = subprocess.run([os.path.join(core.VERIF, "check"), pid, "quick"], capture_output=True, text=True, env=env,
+                               timeout=1800)
+            ok = p.returncode == 0
+            bad += 0 if ok else 1
+            kinds = [ln for ln in p.stdout.splitlines() if "violation kind=" in ln or "HARNESS-ERROR" in ln][:2]
+            rows.append({"refactoring": fn, "outcome": "silent" if ok else f"ALARM rc={p.returncode}", "lines": kinds})
+            core.out(f"[specificity] {pid} {fn:<34} {'silent' if ok else 'ALARM rc=%d' % p.returncode} "
+                     f"{time.time() - t0:4.0f}s {kinds}")
+        finally:
+            shutil.rmtree(d, ignore_errors=True)
+    with open(os.path.join(core.VERIF, "selftest", "specificity_last.json"), "w") as f:
+        json.dump(rows, f, indent=1)
+    core.out(f"[specificity] {len(rows)} refactorings, {bad} alarms")
+    return 0 if not bad else 2
+
+
 def main(argv):
     if not argv:
         core.out(__doc__)
@@ -170,6 +211,8 @@ def main(argv):
             if a.startswith("--n="):
                 n = int(a[4:])
         return determinism(ids, n)
+    if what == "specificity":
+        return specificity([a.upper() for a in rest if a.upper() in driver.CHECK_IDS])
     if what == "sensitivity":
         return sensitivity([a.upper() for a in rest if a.upper() in driver.CHECK_IDS], names or None)
     core.out(__doc__)
